@@ -45,6 +45,36 @@ fn pin_to_cpu(cpu: usize) {
 
 const RECYCLE_LEAK_THRESHOLD: u64 = 600;
 
+/// Wall-clock watchdog: a run that takes longer than this is a harness problem (typically a
+/// real lock held across a simulated decision point), reported as exit code 3, never a hang.
+static RUN_STARTED_MS: std::sync::atomic::AtomicU64 = std::sync::atomic::AtomicU64::new(0);
+
+fn start_run_watchdog() {
+    use std::sync::atomic::Ordering;
+    static STARTED: std::sync::atomic::AtomicBool = std::sync::atomic::AtomicBool::new(false);
+    if STARTED.swap(true, Ordering::SeqCst) {
+        return;
+    }
+    let t0 = std::time::Instant::now();
+    std::thread::spawn(move || loop {
+        std::thread::sleep(std::time::Duration::from_millis(1000));
+        let s = RUN_STARTED_MS.load(Ordering::SeqCst);
+        let now = t0.elapsed().as_millis() as u64 + 1;
+        if s != 0 && now > s + 180_000 {
+            eprintln!("HARNESS-WATCHDOG: one run exceeded 180 s of wall-clock time; aborting this worker");
+            std::process::exit(3);
+        }
+    });
+    WATCHDOG_T0.get_or_init(|| t0);
+}
+
+static WATCHDOG_T0: std::sync::OnceLock<std::time::Instant> = std::sync::OnceLock::new();
+
+fn mark_run(start: bool) {
+    let t0 = WATCHDOG_T0.get_or_init(std::time::Instant::now);
+    RUN_STARTED_MS.store(if start { t0.elapsed().as_millis() as u64 + 1 } else { 0 }, std::sync::atomic::Ordering::SeqCst);
+}
+
 fn leaked() -> u64 {
     humsim::sim::LEAKED_THREADS.load(std::sync::atomic::Ordering::Relaxed)
 }
@@ -148,7 +178,10 @@ fn worker(id: &str, tier: Tier, seed: u64, start: u64, end: u64, stride: u64, de
             writeln!(o, "A {}", idx).ok();
             o.flush().ok();
         }
+        start_run_watchdog();
+        mark_run(true);
         let r = p.execute(&scn);
+        mark_run(false);
         agg.add(&r);
         if !r.violations.is_empty() || r.harness_error.is_some() {
             let line = serde_json::json!({"idx": idx, "result": r, "scenario": scn});
@@ -202,7 +235,11 @@ fn serve(id: &str) {
         let r = match serde_json::from_str::<serde_json::Value>(&line) {
             Ok(scn) => {
                 humsim::sim::install_panic_hook();
-                p.execute(&scn)
+                start_run_watchdog();
+                mark_run(true);
+                let r = p.execute(&scn);
+                mark_run(false);
+                r
             }
             Err(e) => RunResult { harness_error: Some(format!("bad scenario json: {}", e)), ..Default::default() },
         };
